@@ -20,6 +20,22 @@ Proof.
   rewrite <- (strip_fmt F ia Hs v Hv). unfold lex_fuel. pose proof (strip_length F (lex_fmt F v)). lia.
 Qed.
 
+(* the term entry point: parse_term (format_term t) = t *)
+Theorem lex_term_roundtrip F ia t :
+  lex_term_ok F ia = true -> lex_space_ok F ia = true ->
+  term_ok F ia t = true -> unamb F t [] ->
+  lex_parse_term ia F (lex_fmt_term F t) = LOk t.
+Proof.
+  intros Ht Hs Hok Hun. unfold lex_parse_term, lex_parse_term_fuel.
+  pose proof (idealize_fmt F ia Hs (NTerm t) Hok) as Hid. change (lex_fmt F (NTerm t)) with (lex_fmt_term F t) in Hid.
+  rewrite Hid. change (text0 F (NTerm t)) with (f0 F t).
+  pose proof (segment_term_f0 F ia Ht t [] (lex_fuel (lex_fmt_term F t)) Hok Hun eq_refl) as Hseg.
+  rewrite app_nil_r in Hseg. rewrite Hseg; [reflexivity|].
+  pose proof (strip_fmt F ia Hs (NTerm t) Hok) as Hst. change (text0 F (NTerm t)) with (f0 F t) in Hst.
+  change (lex_fmt F (NTerm t)) with (lex_fmt_term F t) in Hst. rewrite <- Hst.
+  unfold lex_fuel. pose proof (strip_length F (lex_fmt_term F t)). lia.
+Qed.
+
 (* ---- self-delimiting formats ---- *)
 Section SelfDelim.
   Variable F : lfmt.
